@@ -37,6 +37,11 @@ var (
 	// a stream partition that does not exist.
 	ErrPartitionNotFound = errors.New("partition does not exist")
 
+	// ErrReplicaNotFound is returned by ShrinkISR and ExpandISR when the
+	// server to remove from or add to the ISR is not a replica of the
+	// partition.
+	ErrReplicaNotFound = errors.New("server is not a replica of the partition")
+
 	// ErrConsumerGroupExists is returned by createConsumerGroup when
 	// attempting to create a group that already exists.
 	ErrConsumerGroupExists = errors.New("consumer group already exists")
@@ -2093,7 +2098,8 @@ func (m *metadataAPI) checkResumeStreamPreconditions(op *proto.RaftLog) error {
 // the partition doesn't exist, it returns ErrPartitionNotFound. Otherwise, it
 // returns nil.
 func (m *metadataAPI) checkShrinkISRPreconditions(op *proto.RaftLog) error {
-	return m.partitionExists(op.ShrinkISROp.Stream, op.ShrinkISROp.Partition)
+	return m.partitionReplicaExists(op.ShrinkISROp.Stream, op.ShrinkISROp.Partition,
+		op.ShrinkISROp.ReplicaToRemove)
 }
 
 // checkExpandISRPreconditions checks if the partition whose ISR is being
@@ -2101,7 +2107,8 @@ func (m *metadataAPI) checkShrinkISRPreconditions(op *proto.RaftLog) error {
 // If the partition doesn't exist, it returns ErrPartitionNotFound. Otherwise,
 // it returns nil.
 func (m *metadataAPI) checkExpandISRPreconditions(op *proto.RaftLog) error {
-	return m.partitionExists(op.ExpandISROp.Stream, op.ExpandISROp.Partition)
+	return m.partitionReplicaExists(op.ExpandISROp.Stream, op.ExpandISROp.Partition,
+		op.ExpandISROp.ReplicaToAdd)
 }
 
 // checkChangeLeaderPreconditions checks if the partition whose leader is being
@@ -2188,6 +2195,27 @@ func (m *metadataAPI) partitionExists(streamName string, partitionID int32) erro
 		return ErrPartitionNotFound
 	}
 	return nil
+}
+
+// partitionReplicaExists checks that the partition exists and that the given
+// server is one of its replicas. An ISR change naming a server that is not a
+// replica cannot be applied, so it must not be committed: applying it fails on
+// every server.
+func (m *metadataAPI) partitionReplicaExists(streamName string, partitionID int32, replica string) error {
+	stream := m.GetStream(streamName)
+	if stream == nil {
+		return ErrStreamNotFound
+	}
+	partition := stream.GetPartition(partitionID)
+	if partition == nil {
+		return ErrPartitionNotFound
+	}
+	for _, r := range partition.GetReplicas() {
+		if r == replica {
+			return nil
+		}
+	}
+	return ErrReplicaNotFound
 }
 
 // selectPartitionLeader selects a replica from the list of replicas to act as
